@@ -124,6 +124,9 @@ def model_record(r):
     ]
 
 
+_EARLIER = None
+
+
 def w_reflect(case):
     from fcp.parser import get_fcp_from_string
     from fcp.error import Logger
@@ -161,7 +164,25 @@ def w_reflect(case):
     try:
         b = serde.encode(R, "Fcp", rec)
         out["bytes"] = list(b)
-        d = serde.decode(R, "Fcp", b)
+        # the blob of the schema serialized BEFORE this one in the same process is decoded only now (blobs are collected
+        # first and written or sent later): it must still be that schema's record
+        global _EARLIER
+        if _EARLIER is not None:
+            pb, pcopy, pdec, ptext = _EARLIER
+            try:
+                now = serde.decode(R, "Fcp", pb)
+            except Exception as e:
+                now = ("raised", type(e).__name__)
+            still = list(pb) == pcopy and now == pdec
+            if not still:
+                out["earlier_blob_changed"] = {"earlier_schema": ptext[:600], "bytes_then": pcopy[:40], "bytes_now": list(pb)[:40]}
+        _EARLIER = None
+        try:
+            d = serde.decode(R, "Fcp", b)
+        except Exception as e:
+            _EARLIER = (b, list(b), ("raised", type(e).__name__), case.get("text") or json.dumps(case.get("files"))[:600])
+            raise
+        _EARLIER = (b, list(b), d, case.get("text") or json.dumps(case.get("files"))[:600])
         out["roundtrip"] = (d == rec)
         if d != rec:
             out["decoded"] = model_record(d)
@@ -408,6 +429,12 @@ def run(prop, tier, replay=None):
                                    what="the reflection record of an accepted schema does not survive serialization"))
             continue
         rep.hist("outcome", "ok")
+        if "earlier_blob_changed" in o:
+            rep.cov["disagreements_checked"] += 1
+            rep.violation(dict(base, kind="earlier-blob", observed=o["earlier_blob_changed"],
+                               what="the serialized record of the schema reflected just before this one, in the same process, no "
+                                    "longer decodes to that schema's record after this schema was serialized"))
+            continue
         if "cli" in o:
             rep.hist("cli_encode", "same bytes" if o["cli"].get("same") else "differs")
             if not o["cli"].get("same"):
